@@ -80,6 +80,13 @@ def frames(prop):
     add({'C06'}, lambda: F.in_order(
         'frame/bind-lhs-change-never-cuts-off', 'src/incr.rs', 'bind',
         [r'set_cutoff\(&\*lhs_change,\s*Cutoff::Never\)'], impl=None))
+    add({'C06'}, lambda: F.in_order(
+        'frame/erased-cutoff-forwards-old-then-new', 'src/cutoff.rs', 'should_cutoff',
+        [r'\(&mut \*self\.should_cutoff\)\(a,\s*b\)'], impl='impl ErasedCutoff'))
+    add({'C06'}, lambda: F.in_order(
+        'frame/erased-cutoff-downcasts-then-asks-the-typed-cutoff-with-old-then-new', 'src/cutoff.rs', 'new',
+        [r'let Some\(a\) = a\.as_any\(\)\.downcast_ref::<T>\(\)', r'let Some\(b\) = b\.as_any\(\)\.downcast_ref::<T>\(\)', r'cutoff\.should_cutoff\(a,\s*b\)'],
+        impl='impl ErasedCutoff'))
     add({'C19'}, lambda: F.only_in(
         'frame/node-height-assigned-only-in-Node::set_height', r'\bheight\s*\.\s*(set|replace)\(', {'set_height'}, NODE, min_hits=1))
 
